@@ -83,7 +83,7 @@ D2 = [[4, 1], [3, 1], [2, 4]]
 M1 = [[1, 2], [1, 3], [2, 1], [3, 3]]
 
 ALPHABET = [
-    ["var"], ["var"],
+    ["var"], ["var", "unlabelled"],
     ["block", [2]], ["block", [0]], ["block", [2, 3]], ["block", [3, 0, 2]], ["block", [2, 1, 2]],
     ["block", [1, 2, 2, 2]],
     ["comb", 4, 2], ["comb", 3, 3], ["comb", 2, 3], ["comb", 3, 0],
@@ -102,7 +102,6 @@ ALPHABET = [
     ["bad", "block-negative"], ["bad", "binary-empty-domain"], ["bad", "bipartite-wrong-type"],
     ["bad", "label-arity"],
 ]
-ALPHABET[1] = ["var", "unlabelled"]
 EXHAUSTIVE_SUBSPACES["quick"][0] %= len(ALPHABET)
 
 CORE = [
@@ -894,7 +893,7 @@ def workload(tier, seed):
             for i in range(len(CORE)):
                 for j in range(len(CORE)):
                     yield "enumerated", {"cls": cls, "alphabet": "core", "prefix": [i, j], "lab": (i + j) % 3}
-    batches = 400 if tier == "quick" else 3500
+    batches = 200 if tier == "quick" else 3000
     for cls in ("CNF", "OPB", "VM"):
         for b in range(batches):
             short = b % 4 == 0
